@@ -408,8 +408,9 @@ REVIEWED = {
         'reached after _elif_to_else_if only when len_body == 1 and the request is an insertion (start == stop in 0..1): then '
         'body[0] is fpre or fpost, so the final `else` arm (neither neighbour exists) is infeasible on that path',
     ('_put_slice_stmtlike_old', '_src_edit.get_slice_stmt(self, field, True, block_loc'):
-        "the only request-dependent raise in SrcEdit.get_slice_stmt rejects a 'pep8space' value outside {True, False, 1}; "
-        'check_options (_check_opt_pep8space) has rejected such a value before any kernel call (R20.5)',
+        ("the only request-dependent raise in SrcEdit.get_slice_stmt rejects a 'pep8space' value outside {True, False, 1}; "
+         'check_options (_check_opt_pep8space) has rejected such a value before any kernel call (R20.5; that the screen implies the deep check is '
+         'folded over a set of probe values on every run)', 'pep8space_screen_implies_range'),
     ('FST.put_docstr', "self._put_slice(text, 0, has_docstr, 'body'"):
         're-put: the old docstring is deleted by a complete edit, then the new one is put; `text` is the output of '
         'repr_str_multiline (always a valid string literal statement) and the options were validated by check_options at entry',
@@ -442,7 +443,67 @@ def premise_except_star_rejected_first(ctx, ef, fi) -> bool:
     return False
 
 
-PREMISES = {'except_star_rejected_first': premise_except_star_rejected_first}
+PEP8SPACE_PROBES = (True, False, 0, 1, 2, 3, 10, -1, 0.5, 1.5, 'x', '', None, (), 'strict')
+
+
+def premise_pep8space_screen_implies_range(ctx, ef, fi) -> bool:
+    """Every value the up-front option screen lets through (the `pep8space` row of the option check table returns None for it) is one the
+    deep checks in the statement source editor do not refuse: both predicates are folded by the static evaluator over a set of probe values."""
+    from ..struct import enclosing_tests
+    try:
+        table = ctx.ev.get('fst_options', '_ALL_OPTION_CHECK_FUNCS')
+        screen = table.get('pep8space')
+    except Exception:
+        return False
+    if not isinstance(screen, FuncTok):
+        return False
+    deep = []
+    for g in ctx.repo.all_funcs():
+        if isinstance(g.node, ast.Lambda) or g.module != 'slice_stmtlike':
+            continue
+        par = None
+        for r in walk_no_nested(g.node):
+            if isinstance(r, ast.Raise) and any(isinstance(c, ast.Constant) and isinstance(c.value, str) and 'pep8space' in c.value for c in ast.walk(r)):
+                par = par or parent_map(g.node)
+                tests = enclosing_tests(g.node, r, par)
+                # the local that holds the option value: bound from get_option('pep8space', ...)
+                names = {t.id for a in walk_no_nested(g.node) if isinstance(a, ast.Assign) and isinstance(a.value, ast.Call) and call_name(a.value) == 'get_option'
+                         and a.value.args and isinstance(a.value.args[0], ast.Constant) and a.value.args[0].value == 'pep8space'
+                         for t in a.targets if isinstance(t, ast.Name)}
+                rel = [(t, pol) for t, pol in tests if any(isinstance(y, ast.Name) and y.id in names for y in ast.walk(t))]
+                if rel and names:
+                    deep.append((g, names, rel))
+    if not deep:
+        return False
+    for v in PEP8SPACE_PROBES:
+        try:
+            verdict = ctx.ev.call_repo_function(screen, ['pep8space', v], {})
+        except Exception:
+            return False
+        if verdict is not None and not isinstance(verdict, str):
+            return False                      # the screen did not fold for this value: the premise is not established
+        if verdict is not None:
+            continue
+        for g, names, rel in deep:
+            env = {nm: v for nm in names}
+            refused = True
+            for t, pol in rel:
+                try:
+                    val = ctx.ev.eval(t, dict(env), g.module)
+                except Exception:
+                    return False
+                if not isinstance(val, (bool, int, float, str, type(None), tuple)):
+                    return False              # did not fold: the premise is not established
+                if bool(val) != pol:
+                    refused = False
+                    break
+            if refused:
+                return False
+    return True
+
+
+PREMISES = {'except_star_rejected_first': premise_except_star_rejected_first,
+            'pep8space_screen_implies_range': premise_pep8space_screen_implies_range}
 
 
 def reviewed_reasons(ctx, ef, fi, k, how):
